@@ -10,6 +10,11 @@ def run(chk):
                             label="every program of <= 4 operations over 3 handles, chunk sizes 0..2")
     progs += apifam.programs(chk, "Api_sim.cfg", simulate=150 if quick else 1500, depth=20, cap=150 if quick else 1500)
     apifam.replay(chk, yv, "c09", progs)
+    # indicator level: init, next, over, init_fn / into_fn, clones -- static and dyn, every indicator
+    from checks import c11
+    for m in c11.ind_api(chk, yv, "c09ind", quick):
+        if any(t in m["key"] for t in (":next:", ":over:", ":new_over:", ":fncall:", ":init_fn:", ":clone:")):
+            chk.finding(m["key"], {"stage": "A:ind-api", "ctx": m.get("ctx")})
     chk.assumptions += ["methods are deterministic transducers, so a handle's abstract state is the number of inputs consumed",
                         "the reference outputs are produced by element-wise next() on a fresh real instance",
                         "pair/candle-input subjects run bulk operations through element-wise next (their generic bulk API is not available for unsized inputs)"]
